@@ -149,3 +149,20 @@ def calls_in(node, name_pred):
 
 def key_of(func: Func, construct):
     return f"{func.module.name}.{func.qualname}::{norm(construct) if not isinstance(construct, str) else construct}"
+
+
+# which properties depend on which source file (used to scope the model-free lints and the benign corpus)
+FILE_PROPS = {
+    "gaftools/conversion.py": ["C01", "C02", "C03", "C04", "C16"],
+    "gaftools/utils.py": ["C01", "C02", "C03", "C07", "C09", "C14", "C16", "C17"],
+    "gaftools/gaf.py": ["C01", "C02", "C03", "C04", "C05", "C11", "C12", "C16", "C17", "C19", "C20"],
+    "gaftools/gfa.py": ["C01", "C02", "C03", "C04", "C05", "C06", "C07", "C08", "C09", "C10", "C12", "C14", "C15", "C17", "C18"],
+    "gaftools/cli/view.py": ["C01", "C02", "C03", "C04", "C05", "C17"],
+    "gaftools/cli/index.py": ["C03", "C04", "C05", "C17"],
+    "gaftools/cli/sort.py": ["C08", "C09", "C10", "C17"],
+    "gaftools/cli/realign.py": ["C11", "C12", "C13", "C16"],
+    "gaftools/cli/order_gfa.py": ["C06", "C07", "C18"],
+    "gaftools/cli/stat.py": ["C19"],
+    "gaftools/cli/phase.py": ["C16", "C20"],
+    "gaftools/cli/find_path.py": ["C14"],
+}
